@@ -64,15 +64,68 @@ def arr(shape, start=1):
     return (np.arange(start, start + n, dtype=float) % 7 + 1).reshape(tuple(shape), order="F")
 
 
-def T(shape):
-    return _ttb().tensor(arr(shape), tuple(shape), copy=True)
+def marr(shape, start=1):
+    """multiplicand (vector / matrix handed to ttv, ttm, mttkrp, khatrirao, constructors): layout from the descriptor's "mk":
+    None = F-ordered, "C" = C-contiguous, "view" = every second row/column of a larger C-ordered buffer (non-contiguous)"""
+    np = _np()
+    a = arr(shape, start)
+    mk = _KINDS.get("mk")
+    if mk == "C":
+        return np.ascontiguousarray(a)
+    if mk == "view":
+        big = np.zeros(tuple(2 * d for d in shape))
+        v = big[tuple(slice(None, None, 2) for _ in shape)]
+        v[...] = a
+        return v
+    return a
 
 
-def S(shape, empty=False):
-    """sptensor with nonzeros on a 'diagonal-ish' pattern (at least one, at most prod/2+1)"""
+# ---- operand kinds -----------------------------------------------------------------------------------------------
+# A request descriptor may carry "rk" / "rk2": the KIND of the first / second operand that a builder below produces
+# (memory layout, degenerate stored patterns, operands arising from an earlier public operation).  Rejection must not
+# depend on them, so the Coq side never sees them; pyttb does.  The builders read the kind from _KINDS (set by run()):
+# the k-th top-level builder call of a request takes the k-th kind.
+_KINDS = {"list": [], "depth": 0}
+DENSE_KINDS = ("C", "zero", "view")                 # C-contiguous source data; all entries 0; built from a strided view
+SPARSE_KINDS = ("empty", "cancel", "one", "zeros", "rev")
+#   empty  = constructed without entries;  cancel = X - X (no entry left, arises from a computation);
+#   one    = exactly one stored entry;     zeros  = explicitly stored zeros handed to the plain constructor;
+#   rev    = entries stored in reversed order
+KRUSKAL_KINDS = ("C", "norm")                       # C-ordered factor matrices assigned by the user; after normalize("all")
+TUCKER_KINDS = ("C",)
+NO_ENTRY = ("empty", "cancel")
+
+
+def operand(f):
+    def g(*a, **k):
+        if _KINDS["depth"] == 0 and "kind" not in k:
+            k["kind"] = _KINDS["list"].pop(0) if _KINDS["list"] else None
+        _KINDS["depth"] += 1
+        try:
+            return f(*a, **k)
+        finally:
+            _KINDS["depth"] -= 1
+    g.__name__ = f.__name__
+    return g
+
+
+@operand
+def T(shape, kind=None):
     np, ttb = _np(), _ttb()
-    if empty:
-        return ttb.sptensor(shape=tuple(shape))
+    a = arr(shape)
+    if kind == "zero":
+        a = a * 0.0
+    elif kind == "C":
+        a = np.ascontiguousarray(a)
+    elif kind == "view":                            # every second element of a larger buffer along each mode, transposed source
+        big = np.zeros(tuple(2 * d for d in shape)[::-1])
+        v = big[tuple(slice(None, None, 2) for _ in shape)].T
+        v[...] = a
+        a = v
+    return ttb.tensor(a, tuple(shape), copy=True)
+
+
+def _sp_pattern(shape):
     n = math.prod(shape)
     subs = []
     for k in range(0, n, 2):
@@ -81,18 +134,53 @@ def S(shape, empty=False):
             row.append(kk % d)
             kk //= d
         subs.append(row)
-    vals = [[float(i % 3 + 1)] for i in range(len(subs))]
-    return ttb.sptensor(np.array(subs, dtype=int).reshape((len(subs), len(shape))), np.array(vals), tuple(shape), copy=True)
+    return subs
 
 
-def K(shape, R=2, start=1):
+@operand
+def S(shape, empty=False, kind=None):
+    """sptensor with nonzeros on a 'diagonal-ish' pattern (at least one, at most prod/2+1); see SPARSE_KINDS"""
     np, ttb = _np(), _ttb()
-    return ttb.ktensor([arr((d, R), start + i) for i, d in enumerate(shape)], np.arange(1.0, R + 1), copy=True)
+    if kind is None and empty:
+        kind = "empty"
+    if kind == "empty":
+        return ttb.sptensor(shape=tuple(shape))
+    subs = _sp_pattern(shape)
+    vals = [[float(i % 3 + 1)] for i in range(len(subs))]
+    if kind == "one":
+        subs, vals = subs[-1:], vals[-1:]
+    elif kind == "rev":
+        subs, vals = subs[::-1], vals[::-1]
+    elif kind == "zeros":
+        vals = [[0.0] for _ in vals]
+    x = ttb.sptensor(np.array(subs, dtype=int).reshape((len(subs), len(shape))), np.array(vals), tuple(shape), copy=True)
+    if kind == "cancel":
+        x = x - x
+        if x.nnz != 0:
+            raise RuntimeError("X - X stores entries")
+    return x
 
 
-def TT(shape, core):
-    ttb = _ttb()
-    return ttb.ttensor(T(core), [arr((d, c), 2 + i) for i, (d, c) in enumerate(zip(shape, core))], copy=True)
+@operand
+def K(shape, R=2, start=1, kind=None):
+    np, ttb = _np(), _ttb()
+    k = ttb.ktensor([arr((d, R), start + i) for i, d in enumerate(shape)], np.arange(1.0, R + 1), copy=True)
+    if kind == "C":
+        for n in range(len(shape)):
+            k.factor_matrices[n] = np.ascontiguousarray(k.factor_matrices[n])
+    elif kind == "norm":
+        k.normalize(weight_factor="all")
+    return k
+
+
+@operand
+def TT(shape, core, kind=None):
+    np, ttb = _np(), _ttb()
+    t = ttb.ttensor(T(core), [arr((d, c), 2 + i) for i, (d, c) in enumerate(zip(shape, core))], copy=True)
+    if kind == "C":
+        for n in range(len(shape)):
+            t.factor_matrices[n] = np.ascontiguousarray(t.factor_matrices[n])
+    return t
 
 
 def snap(objs):
@@ -135,6 +223,7 @@ def run(name, args):
     import logging
     logging.disable(logging.WARNING)          # pyttb logs a warning per non-F-ordered intermediate; irrelevant here
     op = OPS[name]
+    _KINDS["list"], _KINDS["depth"], _KINDS["mk"] = [args.get("rk"), args.get("rk2")], 0, args.get("mk")
     try:
         recv, thunk = op.call(args)
         before = snap(recv)
@@ -263,7 +352,7 @@ reg("tensor.ctor", "tensor_ctor",
     lambda a: f"{zl(a['dshape'])} {zo(a['shape'])}",
     lambda a: True if a["shape"] is None else (math.prod(a["dshape"]) == 0 if len(a["shape"]) == 0
                                                else math.prod(a["shape"]) == math.prod(a["dshape"])),
-    lambda a: ((lambda d: ([d], lambda: _ttb().tensor(d, None if a["shape"] is None else tuple(a["shape"]))))(arr(a["dshape"]))),
+    lambda a: ((lambda d: ([d], lambda: _ttb().tensor(d, None if a["shape"] is None else tuple(a["shape"]))))(marr(a["dshape"]))),
     _g_tensor_ctor)
 
 
@@ -497,7 +586,7 @@ def _dims(a):
 reg("tensor.ttv", "tensor_ttv",
     lambda a: f"{zl(a['s'])} {zl(a['vlens'])} {zo(a['dims'])} {zo(a['excl'])}",
     _pre_ttv,
-    lambda a: (lambda t, vs: ([t, vs], lambda: t.ttv(vs, *_dims(a))))(T(a["s"]), [arr((n,), 2) for n in a["vlens"]]),
+    lambda a: (lambda t, vs: ([t, vs], lambda: t.ttv(vs, *_dims(a))))(T(a["s"]), [marr((n,), 2) for n in a["vlens"]]),
     _g_ttv)
 
 
@@ -538,7 +627,7 @@ def _pre_ttm(a):
 reg("tensor.ttm", "tensor_ttm",
     lambda a: f"{zl(a['s'])} {pl(a['ms'])} {zo(a['dims'])} {zo(a['excl'])} {gbool(a['tr'])}",
     _pre_ttm,
-    lambda a: (lambda t, ms: ([t, ms], lambda: t.ttm(ms, *_dims(a), transpose=a["tr"])))(T(a["s"]), [arr(m, 3) for m in a["ms"]]),
+    lambda a: (lambda t, ms: ([t, ms], lambda: t.ttm(ms, *_dims(a), transpose=a["tr"])))(T(a["s"]), [marr(m, 3) for m in a["ms"]]),
     _g_ttm)
 
 
@@ -566,14 +655,21 @@ def _no_singleton_selected(a):
 
 def ttv_op(name, mk, pool_min=1, keep=lambda a: True):
     reg(name, ("ttv", "ttv_checks"), lambda a: f"{zl(a['s'])} {zl(a['vlens'])} {zo(a['dims'])} {zo(a['excl'])}", _pre_ttv,
-        lambda a: (lambda x, vs: ([x, vs], lambda: x.ttv(vs, *_dims(a))))(mk(a["s"]), [arr((n,), 2) for n in a["vlens"]]),
+        lambda a: (lambda x, vs: ([x, vs], lambda: x.ttv(vs, *_dims(a))))(mk(a["s"]), [marr((n,), 2) for n in a["vlens"]]),
         lambda rng, tier: [(a, t) for a, t in _g_ttv(rng, tier) if len(a["s"]) >= pool_min and keep(a)])
 
 
-def ttm_op(name, mk, pool_min=1):
-    reg(name, "ttm", lambda a: f"{zl(a['s'])} {pl(a['ms'])} {zo(a['dims'])} {zo(a['excl'])} {gbool(a['tr'])}", _pre_ttm,
-        lambda a: (lambda x, ms: ([x, ms], lambda: x.ttm(ms, *_dims(a), transpose=a["tr"])))(mk(a["s"]), [arr(m, 3) for m in a["ms"]]),
-        lambda rng, tier: [(a, t) for a, t in _g_ttm(rng, tier) if len(a["s"]) >= pool_min], guard=False)
+def _pre_ttensor_ttm(a):
+    s, N, M = a["s"], len(a["s"]), len(a["ms"])
+    if not pre_sel(N, a["dims"], a["excl"]):
+        return False
+    return pre_mults(N, M, sel_modes(N, a["dims"], a["excl"]), lambda v, m: a["ms"][v][0 if a["tr"] else 1] == s[m])
+
+
+def ttm_op(name, mk, pool_min=1, cname="ttm", pre=None):
+    reg(name, cname, lambda a: f"{zl(a['s'])} {pl(a['ms'])} {zo(a['dims'])} {zo(a['excl'])} {gbool(a['tr'])}", pre or _pre_ttm,
+        lambda a: (lambda x, ms: ([x, ms], lambda: x.ttm(ms, *_dims(a), transpose=a["tr"])))(mk(a["s"]), [marr(m, 3) for m in a["ms"]]),
+        lambda rng, tier: [(a, t) for a, t in _g_ttm(rng, tier) if len(a["s"]) >= pool_min])
 
 
 def _g_mttkrp(rng, tier, minN=2):
@@ -625,7 +721,7 @@ def _pre_mttkrp(a):
 
 def mttkrp_op(name, mk, guard=None):
     reg(name, "mttkrp" if guard is None else ("mttkrp", guard), lambda a: f"{zl(a['s'])} {pl(a['us'])} {gz(a['n'])}", _pre_mttkrp,
-        lambda a: (lambda x, us: ([x, us], lambda: x.mttkrp(us, a["n"])))(mk(a["s"]), [arr(u, 2) for u in a["us"]]),
+        lambda a: (lambda x, us: ([x, us], lambda: x.mttkrp(us, a["n"])))(mk(a["s"]), [marr(u, 2) for u in a["us"]]),
         _g_mttkrp, guard=guard is not None)
 
 
@@ -672,7 +768,7 @@ def _g_scale(rng, tier):
 
 reg("tensor.scale", "scale", lambda a: f"{zl(a['s'])} {zl(a['f'])} {zl(a['d'])}",
     lambda a: modes_ok(len(a["s"]), a["d"]) and a["f"] == [a["s"][m] for m in a["d"]],
-    lambda a: (lambda x, f: ([x, f], lambda: x.scale(f, _np().array(a["d"], dtype=int))))(T(a["s"]), T(a["f"])), _g_scale, guard=False)
+    lambda a: (lambda x, f: ([x, f], lambda: x.scale(f, _np().array(a["d"], dtype=int))))(T(a["s"]), T(a["f"])), _g_scale)
 
 
 def _g_to_tenmat(rng, tier):
@@ -693,14 +789,14 @@ def _g_to_tenmat(rng, tier):
     return out
 
 
-reg("tensor.to_tenmat", "to_tenmat", lambda a: f"{zl(a['s'])} {zl(a['rd'])} {zl(a['cd'])}",
+reg("tensor.to_tenmat", ("to_tenmat", "to_tenmat"), lambda a: f"{zl(a['s'])} {zl(a['rd'])} {zl(a['cd'])}",
     lambda a: is_perm(len(a["s"]), a["rd"] + a["cd"]),
     lambda a: (lambda x: ([x], lambda: x.to_tenmat(_np().array(a["rd"], dtype=int), _np().array(a["cd"], dtype=int))))(T(a["s"])),
-    _g_to_tenmat, guard=False)
-reg("sptensor.to_sptenmat", "to_tenmat", lambda a: f"{zl(a['s'])} {zl(a['rd'])} {zl(a['cd'])}",
+    _g_to_tenmat)
+reg("sptensor.to_sptenmat", ("to_tenmat", "to_sptenmat"), lambda a: f"{zl(a['s'])} {zl(a['rd'])} {zl(a['cd'])}",
     lambda a: is_perm(len(a["s"]), a["rd"] + a["cd"]),
     lambda a: (lambda x: ([x], lambda: x.to_sptenmat(_np().array(a["rd"], dtype=int), _np().array(a["cd"], dtype=int))))(S(a["s"])),
-    _g_to_tenmat, guard=False)
+    _g_to_tenmat)
 
 
 def _g_ttt(rng, tier):
@@ -725,7 +821,7 @@ reg("tensor.ttt", "ttt", lambda a: f"{zl(a['s'])} {zl(a['u'])} {zl(a['sd'])} {zl
     lambda a: modes_ok(len(a["s"]), a["sd"]) and modes_ok(len(a["u"]), a["od"])
     and [a["s"][m] for m in a["sd"]] == [a["u"][m] for m in a["od"]],
     lambda a: (lambda x, y: ([x, y], lambda: x.ttt(y, _np().array(a["sd"], dtype=int), _np().array(a["od"], dtype=int))))(T(a["s"]), T(a["u"])),
-    _g_ttt, guard=False)
+    _g_ttt)
 
 
 def _g_linear(rng, tier):
@@ -742,9 +838,9 @@ def _set_linear(x, k):
 
 
 reg("tensor.setitem_linear", "linear_index", lambda a: f"{zl(a['s'])} {gz(a['k'])}", lambda a: 0 <= a["k"] < math.prod(a["s"]),
-    lambda a: (lambda x: ([x], lambda: _set_linear(x, a["k"])))(T(a["s"])), _g_linear, mutating=True, guard=False)
+    lambda a: (lambda x: ([x], lambda: _set_linear(x, a["k"])))(T(a["s"])), _g_linear, mutating=True)
 reg("tensor.getitem_linear", "linear_index", lambda a: f"{zl(a['s'])} {gz(a['k'])}", lambda a: 0 <= a["k"] < math.prod(a["s"]),
-    lambda a: (lambda x: ([x], lambda: x[_np().array([a["k"]])]))(T(a["s"])), _g_linear, guard=False)
+    lambda a: (lambda x: ([x], lambda: x[_np().array([a["k"]])]))(T(a["s"])), _g_linear)
 
 # ---------------------------------------------------------------- sptensor
 
@@ -768,6 +864,10 @@ def _g_sp_ctor(rng, tier):
         out.append(({"s": list(s), "subs": good, "nvals": len(good) + 1}, "vals_count"))
         if len(good) == 2:
             out.append(({"s": list(s), "subs": good, "nvals": 1}, "vals_count"))
+        # a subscript array without rows: no values (well-formed) / values without subscripts
+        out.append(({"s": list(s), "subs": [], "nvals": 0}, "control"))
+        out.append(({"s": list(s), "subs": [], "nvals": 2}, "vals_no_subs"))
+        out.append(({"s": list(s), "subs": [], "nvals": 1}, "vals_no_subs"))
     return out
 
 
@@ -778,16 +878,16 @@ def _pre_sp_ctor(a):
 
 def _mk_subs(a):
     np = _np()
-    subs = np.array(a["subs"], dtype=int)
+    subs = np.array(a["subs"], dtype=int) if a["subs"] else np.zeros((0, len(a["s"])), dtype=int)
     vals = np.arange(1.0, a["nvals"] + 1).reshape((a["nvals"], 1))
     return subs, vals
 
 
 reg("sptensor.ctor", "sptensor_ctor", lambda a: f"{zl(a['s'])} {zll(a['subs'])} {gz(a['nvals'])}", _pre_sp_ctor,
     lambda a: (lambda sv: ([sv[0], sv[1]], lambda: _ttb().sptensor(sv[0], sv[1], tuple(a["s"]))))(_mk_subs(a)), _g_sp_ctor)
-reg("sptensor.from_aggregator", "sptensor_ctor", lambda a: f"{zl(a['s'])} {zll(a['subs'])} {gz(a['nvals'])}", _pre_sp_ctor,
+reg("sptensor.from_aggregator", ("sptensor_ctor", "from_aggregator"), lambda a: f"{zl(a['s'])} {zll(a['subs'])} {gz(a['nvals'])}", _pre_sp_ctor,
     lambda a: (lambda sv: ([sv[0], sv[1]], lambda: _ttb().sptensor.from_aggregator(sv[0], sv[1], tuple(a["s"]))))(_mk_subs(a)),
-    _g_sp_ctor, guard=False)
+    _g_sp_ctor)
 
 
 def _g_extract(rng, tier):
@@ -800,12 +900,17 @@ def _g_extract(rng, tier):
         for k in range(N):
             out.append(({"s": list(s), "subs": [zero, top[:k] + [s[k]] + top[k + 1:]]}, "oob_sub"))
             out.append(({"s": list(s), "subs": [zero[:k] + [-1] + zero[k + 1:], top]}, "neg_sub"))
+        # subscript arrays with the wrong number of columns (a single column / one more / one less): numpy would broadcast some
+        out.append(({"s": list(s), "subs": [zero + [0], top + [0]]}, "extra_col"))
+        if N > 1:
+            out.append(({"s": list(s), "subs": [zero[:-1], top[:-1]]}, "missing_col"))
+            out.append(({"s": list(s), "subs": [[0], [min(s) - 1]]}, "one_col"))
     return out
 
 
-reg("sptensor.extract", "subs", lambda a: f"{zl(a['s'])} {zll(a['subs'])}",
+reg("sptensor.extract", ("subs", "sptensor_extract"), lambda a: f"{zl(a['s'])} {zll(a['subs'])}",
     lambda a: all(len(r) == len(a["s"]) and all(0 <= x < d for x, d in zip(r, a["s"])) for r in a["subs"]),
-    lambda a: (lambda x: ([x], lambda: x.extract(_np().array(a["subs"], dtype=int))))(S(a["s"])), _g_extract, guard=False)
+    lambda a: (lambda x: ([x], lambda: x.extract(_np().array(a["subs"], dtype=int))))(S(a["s"])), _g_extract)
 
 
 def _g_sp_innerprod(rng, tier):
@@ -828,8 +933,8 @@ perm_op("sptensor.permute", S, lambda x, o: x.permute(o))
 reg("sptensor.reshape", ("reshape", "tensor_reshape"), lambda a: f"{zl(a['s'])} {zl(a['new'])}", lambda a: math.prod(a["s"]) == math.prod(a["new"]),
     lambda a: (lambda t: ([t], lambda: t.reshape(tuple(a["new"]))))(S(a["s"])), _g_reshape)
 ttv_op("sptensor.ttv", S)
-ttm_op("sptensor.ttm", S, pool_min=2)      # 1-way: to_sptenmat with an empty side raises (A-02, outside C19)
-mttkrp_op("sptensor.mttkrp", S)
+ttm_op("sptensor.ttm", S, pool_min=2, cname=("ttm", "sptensor_ttm"))      # 1-way: to_sptenmat with an empty side raises (A-02, outside C19)
+mttkrp_op("sptensor.mttkrp", S, guard="sptensor_mttkrp")
 
 # ---------------------------------------------------------------- ktensor
 
@@ -857,7 +962,7 @@ def _pre_k_ctor(a):
 
 
 reg("ktensor.ctor", "ktensor_ctor", lambda a: f"{pl(a['ms'])} {gopt(a['w'], gz)}", _pre_k_ctor,
-    lambda a: (lambda fs, w: ([fs, w], lambda: _ttb().ktensor(fs, w)))([arr(m, 2) for m in a["ms"]],
+    lambda a: (lambda fs, w: ([fs, w], lambda: _ttb().ktensor(fs, w)))([marr(m, 2) for m in a["ms"]],
                                                                       None if a["w"] is None else _np().arange(1.0, a["w"] + 1)),
     _g_k_ctor)
 
@@ -914,15 +1019,15 @@ reg("ktensor.redistribute", "mode", lambda a: f"{zl(a['s'])} {gz(a['n'])}", lamb
     lambda a: (lambda x: ([x], lambda: x.redistribute(a["n"])))(K(a["s"])), _g_mode, mutating=True)
 reg("ktensor.normalize_mode", "mode", lambda a: f"{zl(a['s'])} {gz(a['n'])}", lambda a: in_range(len(a["s"]), a["n"]),
     lambda a: (lambda x: ([x], lambda: x.normalize(mode=a["n"])))(K(a["s"])), _g_mode, mutating=True)
-reg("tensor.nvecs", "mode", lambda a: f"{zl(a['s'])} {gz(a['n'])}", lambda a: in_range(len(a["s"]), a["n"]),
+reg("tensor.nvecs", ("mode", "nvecs"), lambda a: f"{zl(a['s'])} {gz(a['n'])}", lambda a: in_range(len(a["s"]), a["n"]),
     lambda a: (lambda x: ([x], lambda: x.nvecs(a["n"], 1)))(T(a["s"])),
-    lambda rng, tier: [(a, t) for a, t in _g_mode(rng, tier) if len(a["s"]) >= 2 and a["s"][0] > 1], guard=False)
+    lambda rng, tier: [(a, t) for a, t in _g_mode(rng, tier) if len(a["s"]) >= 2 and a["s"][0] > 1])
 two_shapes("ktensor.innerprod", K, K, lambda x, y: x.innerprod(y))
 two_shapes("ktensor.innerprod_dense", K, T, lambda x, y: x.innerprod(y))
 two_shapes("ktensor.add", K, K, lambda x, y: x + y)
 perm_op("ktensor.permute", K, lambda x, o: x.permute(o))
 ttv_op("ktensor.ttv", K)
-mttkrp_op("ktensor.mttkrp", K)
+mttkrp_op("ktensor.mttkrp", K, guard="ktensor_mttkrp")
 
 # ---------------------------------------------------------------- ttensor
 
@@ -945,7 +1050,7 @@ def _g_tt_ctor(rng, tier):
 
 reg("ttensor.ctor", "ttensor_ctor", lambda a: f"{zl(a['core'])} {pl(a['ms'])}",
     lambda a: len(a["ms"]) == len(a["core"]) and all(m[1] == c for m, c in zip(a["ms"], a["core"])),
-    lambda a: (lambda c, fs: ([c, fs], lambda: _ttb().ttensor(c, fs)))(T(a["core"]), [arr(m, 2) for m in a["ms"]]), _g_tt_ctor)
+    lambda a: (lambda c, fs: ([c, fs], lambda: _ttb().ttensor(c, fs)))(T(a["core"]), [marr(m, 2) for m in a["ms"]]), _g_tt_ctor)
 
 
 def TTs(s):
@@ -956,7 +1061,7 @@ two_shapes("ttensor.innerprod", TTs, TTs, lambda x, y: x.innerprod(y))
 two_shapes("ttensor.innerprod_dense", TTs, T, lambda x, y: x.innerprod(y))
 perm_op("ttensor.permute", TTs, lambda x, o: x.permute(o))
 ttv_op("ttensor.ttv", TTs)
-ttm_op("ttensor.ttm", TTs)
+ttm_op("ttensor.ttm", TTs, cname="ttensor_ttm", pre=_pre_ttensor_ttm)
 mttkrp_op("ttensor.mttkrp", TTs, guard="ttensor_mttkrp")
 
 # ---------------------------------------------------------------- tenmat / sptenmat
@@ -992,8 +1097,8 @@ def _pre_tenmat_ctor(a):
 
 
 reg("tenmat.ctor", "tenmat_ctor", lambda a: f"({gz(a['d'][0])}, {gz(a['d'][1])}) {zl(a['rd'])} {zl(a['cd'])} {zl(a['ts'])}", _pre_tenmat_ctor,
-    lambda a: (lambda d: ([d], lambda: _ttb().tenmat(d, _np().array(a["rd"], dtype=int), _np().array(a["cd"], dtype=int), tuple(a["ts"]))))(arr(a["d"])),
-    _g_tenmat_ctor, guard=False)
+    lambda a: (lambda d: ([d], lambda: _ttb().tenmat(d, _np().array(a["rd"], dtype=int), _np().array(a["cd"], dtype=int), tuple(a["ts"]))))(marr(a["d"])),
+    _g_tenmat_ctor)
 
 
 def TM(rc):
@@ -1013,8 +1118,66 @@ def _g_mat2(rng, tier):
 
 reg("tenmat.mul", "tenmat_mul", lambda a: f"({gz(a['a'][0])}, {gz(a['a'][1])}) ({gz(a['b'][0])}, {gz(a['b'][1])})",
     lambda a: a["a"][1] == a["b"][0], lambda a: (lambda x, y: ([x, y], lambda: x * y))(TM(a["a"]), TM(a["b"])), _g_mat2)
-two_shapes("tenmat.add", TM, TM, lambda x, y: x + y, cname="same_shape")
-OPS["tenmat.add"].gen = lambda rng, tier: [(a, t) for a, t in _g_two_shapes(rng, tier) if len(a["s"]) == 2 and len(a["u"]) == 2]
+
+
+# element-wise + / - of two matricised tensors: each operand is (tshape, rdims, cdims); the MATRIX shapes must agree.
+# Streams: the same tensor shape split differently (N x 1 against 1 x N, singleton modes: numpy would broadcast these),
+# different tensor shapes with the same / a different matrix shape, same split.
+def _splits(N):
+    out = []
+    for r in range(0, N + 1):
+        for rd in itertools.combinations(range(N), r):
+            out.append((list(rd), [m for m in range(N) if m not in rd]))
+    return out
+
+
+def _mshape(ts, rd, cd):
+    return [math.prod(ts[m] for m in rd), math.prod(ts[m] for m in cd)]
+
+
+def _g_tenmat_binop(rng, tier):
+    out = []
+    shapes = [(2, 3), (1, 3), (4, 1, 1), (1, 2, 3), (2, 3, 4), (5,), (2, 2), (1, 1), (3, 3, 3)]
+    for s in shapes:
+        s = list(s)
+        sp = _splits(len(s))
+        for rd, cd in sp:
+            for urd, ucd in sp:
+                a = {"ts": s, "rd": rd, "cd": cd, "us": s, "urd": urd, "ucd": ucd}
+                m1, m2 = _mshape(s, rd, cd), _mshape(s, urd, ucd)
+                if m1 == m2:
+                    tag = "control"
+                elif _bcast2(m1, m2):
+                    tag = "split_broadcastable"
+                else:
+                    tag = "split"
+                out.append((a, tag))
+        # a different tensor
+        for tag, v in shape_variants(s):
+            for rd, cd in sp[:3] + sp[-1:]:
+                k = len(rd)
+                urd, ucd = list(range(min(k, len(v)))), list(range(min(k, len(v)), len(v)))
+                a = {"ts": s, "rd": rd, "cd": cd, "us": v, "urd": urd, "ucd": ucd}
+                out.append((a, "control" if _mshape(s, rd, cd) == _mshape(v, urd, ucd) else "tshape_" + tag))
+    return out
+
+
+def _bcast2(a, b):
+    return all(x == y or x == 1 or y == 1 for x, y in zip(a, b))
+
+
+def TMs(ts, rd, cd):
+    np = _np()
+    return T(ts).to_tenmat(np.array(rd, dtype=int), np.array(cd, dtype=int))
+
+
+for _nm, _f in (("add", lambda x, y: x + y), ("sub", lambda x, y: x - y), ("radd", lambda x, y: x.__radd__(y)),
+                ("rsub", lambda x, y: x.__rsub__(y))):
+    reg("tenmat." + _nm, "tenmat_binop",
+        lambda a: f"{zl(a['ts'])} {zl(a['rd'])} {zl(a['cd'])} {zl(a['us'])} {zl(a['urd'])} {zl(a['ucd'])}",
+        lambda a: _mshape(a["ts"], a["rd"], a["cd"]) == _mshape(a["us"], a["urd"], a["ucd"]),
+        (lambda f: lambda a: (lambda x, y: ([x, y], lambda: f(x, y)))(TMs(a["ts"], a["rd"], a["cd"]), TMs(a["us"], a["urd"], a["ucd"])))(_f),
+        _g_tenmat_binop)
 
 
 def _g_sptenmat_ctor(rng, tier):
@@ -1068,14 +1231,17 @@ reg("sumtensor.ctor", "all_same_shape", lambda a: zll(a["shapes"]), lambda a: al
     lambda a: (lambda ps: ([ps], lambda: _ttb().sumtensor(ps)))([T(a["shapes"][0])] + [K(x) for x in a["shapes"][1:]]), _g_shapes_list)
 
 
-def SU(s):
-    return _ttb().sumtensor([T(s), K(s)])
+@operand
+def SU(s, kind=None):
+    if kind in ("sparse", "empty"):
+        return _ttb().sumtensor([S(s, kind=kind if kind == "empty" else None), K(s)])
+    return _ttb().sumtensor([T(s, kind=kind), K(s, kind=kind)])
 
 
 two_shapes("sumtensor.add", SU, T, lambda x, y: x + y)
 two_shapes("sumtensor.innerprod", SU, T, lambda x, y: x.innerprod(y))
 ttv_op("sumtensor.ttv", SU)
-mttkrp_op("sumtensor.mttkrp", SU)
+mttkrp_op("sumtensor.mttkrp", SU, guard="sumtensor_mttkrp")
 
 
 def _g_khatrirao(rng, tier):
@@ -1094,7 +1260,7 @@ def _g_khatrirao(rng, tier):
 
 
 reg("khatrirao", "khatrirao", lambda a: pl(a["ms"]), lambda a: all(m[1] == a["ms"][0][1] for m in a["ms"]),
-    lambda a: (lambda ms: ([ms], lambda: _ttb().khatrirao(*ms)))([arr(m, 2) for m in a["ms"]]), _g_khatrirao)
+    lambda a: (lambda ms: ([ms], lambda: _ttb().khatrirao(*ms)))([marr(m, 2) for m in a["ms"]]), _g_khatrirao)
 
 
 # ---------------------------------------------------------------- algorithm entry points and import_data
@@ -1186,13 +1352,15 @@ def _g_optdims(rng, tier):
             out.append(({"s": list(s), "optdims": d}, tag))
         out.append(({"s": list(s), "optdims": list(range(N)) + [N - 1]}, "rep_mode"))
         out.append(({"s": list(s), "optdims": list(range(N)) + [N]}, "oob_mode"))
+        out.append(({"s": list(s), "optdims": []}, "no_mode"))
     return out
 
 
 # cp_als(optdims=...): the list of modes to optimise is a mode argument (distinct modes of the tensor)
-reg("cp_als.optdims", "modes", lambda a: f"{zl(a['s'])} {zl(a['optdims'])}", lambda a: modes_ok(len(a["s"]), a["optdims"]),
+reg("cp_als.optdims", "cp_optdims", lambda a: f"{zl(a['s'])} {zl(a['optdims'])}",
+    lambda a: modes_ok(len(a["s"]), a["optdims"]) and len(a["optdims"]) > 0,
     lambda a: (lambda x: ([x], lambda: _quiet(lambda: _ttb().cp_als(x, 2, optdims=list(a["optdims"]), maxiters=1, printitn=0))))(T(a["s"])),
-    _g_optdims, guard=False)
+    _g_optdims)
 
 
 def _g_cp_apr(rng, tier):
@@ -1314,6 +1482,26 @@ def _g_gcp(rng, tier):
         out.append((dict(base, init={"k": s[:-1] + [s[-1] + 1], "R": 2}), "init_size"))
         out.append((dict(base, init={"k": s[:-1], "R": 2}), "init_modes"))
         out.append((dict(base, rank=0, init="random"), "rank"))
+        # the initial guess as a list of factor matrices
+        good = [[d, 2] for d in s]
+        out.append((dict(base, init={"l": good}), "control"))
+        out.append((dict(base, init={"l": [[d, 3] for d in s]}), "list_rank"))
+        out.append((dict(base, init={"l": [[d, 1] for d in s]}), "list_rank"))
+        out.append((dict(base, init={"l": good[:-1] + [[s[-1], 3]]}), "list_cols"))
+        for k in range(len(s)):
+            out.append((dict(base, init={"l": good[:k] + [[s[k] + 1, 2]] + good[k + 1:]}), "list_size"))
+        out.append((dict(base, init={"l": good[:-1]}), "list_len"))
+        out.append((dict(base, init={"l": good + [[2, 2]]}), "list_len"))
+        if s != s[::-1]:
+            out.append((dict(base, init={"l": good[::-1]}), "list_size"))
+    for s in ([3, 1], [1, 2, 3]):           # singleton modes: a wrong row count that numpy broadcasts against the data
+        base = {"s": s, "rank": 2, "init": "random", "opt": "lbfgsb"}
+        good = [[d, 2] for d in s]
+        out.append((dict(base), "control"))
+        out.append((dict(base, init={"l": good}), "control"))
+        for k in range(len(s)):
+            out.append((dict(base, init={"l": good[:k] + [[s[k] + 2, 2]] + good[k + 1:]}), "list_size"))
+            out.append((dict(base, init={"k": s[:k] + [s[k] + 2] + s[k + 1:], "R": 2}), "init_size"))
     return out
 
 
@@ -1327,9 +1515,11 @@ def _gcp_call(a):
 
 
 reg("gcp_opt", "gcp_opt", lambda a: f"{zl(a['s'])} {gz(a['rank'])} {ginit(a['init'])} {gbool(a['opt'] == 'lbfgsb')}",
-    lambda a: a["rank"] > 0 and a["opt"] == "lbfgsb" and (a["init"] == "random" or (isinstance(a["init"], dict)
-                                                          and a["init"]["k"] == a["s"] and a["init"]["R"] == a["rank"])),
-    _gcp_call, _g_gcp, guard=False)
+    lambda a: a["rank"] > 0 and a["opt"] == "lbfgsb" and (
+        a["init"] == "random" or (isinstance(a["init"], dict) and (
+            (a["init"]["k"] == a["s"] and a["init"]["R"] == a["rank"]) if "k" in a["init"]
+            else a["init"]["l"] == [[d, a["rank"]] for d in a["s"]]))),
+    _gcp_call, _g_gcp)
 
 
 def _g_import(rng, tier):
@@ -1370,6 +1560,64 @@ reg("import_data", "import", lambda a: f"{gbool(a['type'] in ('tensor', 'sptenso
 
 
 # ================================================================================================
+# operand kinds per operation: every malformed stream is repeated on degenerate / differently laid out operands
+# ================================================================================================
+def with_kinds(names, combos, mks=()):
+    """combos: (rk, rk2) pairs; mks: layouts of the multiplicands. The base stream (default kinds) is kept in full."""
+    for name in names:
+        op = OPS[name]
+
+        def gen(rng, tier, _g=op.gen, _combos=tuple(combos), _mks=tuple(mks)):
+            base = _g(rng, tier)
+            out = list(base)
+            for rk, rk2 in _combos:
+                for a, t in base:
+                    if "empty" in a and a["empty"] != (rk in NO_ENTRY):      # the descriptor says whether entries are stored
+                        continue
+                    d = dict(a)
+                    if rk:
+                        d["rk"] = rk
+                    if rk2:
+                        d["rk2"] = rk2
+                    out.append((d, t))
+            for mk in _mks:
+                out += [(dict(a, mk=mk), t) for a, t in base]
+            return out
+        op.gen = gen
+
+
+DENSE_BINOPS_ALL = {"tensor.add", "tensor.sub", "tensor.mul", "tensor.logical_and", "tensor.eq", "tensor.le"}
+_SP1 = [(k, None) for k in SPARSE_KINDS]
+_SP2 = _SP1 + [(None, k) for k in SPARSE_KINDS] + [(k, k) for k in ("empty", "cancel", "one", "zeros")] + [("empty", "cancel"), ("one", "empty")]
+_D1 = [(k, None) for k in DENSE_KINDS]
+_D2 = _D1 + [(None, k) for k in DENSE_KINDS] + [("C", "C"), ("zero", "zero")]
+_MK = ("C", "view")
+with_kinds(["sptensor.collapse", "sptensor.permute", "sptensor.reshape", "sptensor.extract", "sptensor.to_sptenmat"], _SP1)
+with_kinds(["sptensor.ttv", "sptensor.ttm", "sptensor.mttkrp"], _SP1, _MK)
+with_kinds(["sptensor.add", "sptensor.sub", "sptensor.mul", "sptensor.logical_and", "sptensor.logical_or", "sptensor.eq",
+            "sptensor.innerprod_sp"], _SP2)
+with_kinds(["sptensor.innerprod_dense", "sptensor.mul_dense"], _SP1 + [(None, k) for k in DENSE_KINDS])
+with_kinds(["tensor.permute", "tensor.reshape", "tensor.contract", "tensor.collapse", "tensor.to_tenmat", "tensor.getitem_linear",
+            "tensor.setitem_linear", "tensor.nvecs"], _D1)
+with_kinds(["tensor.ttv", "tensor.ttm", "tensor.mttkrp"], _D1, _MK)
+with_kinds(["tensor.innerprod", "tensor.scale", "tensor.ttt"] + sorted(DENSE_BINOPS_ALL), _D2)
+with_kinds(["tensor.ctor", "tenmat.ctor", "khatrirao", "ktensor.ctor", "ttensor.ctor"], [], _MK)
+with_kinds(["ktensor.arrange", "ktensor.extract", "ktensor.redistribute", "ktensor.normalize_mode", "ktensor.permute"],
+           [(k, None) for k in KRUSKAL_KINDS])
+with_kinds(["ktensor.ttv", "ktensor.mttkrp"], [(k, None) for k in KRUSKAL_KINDS], _MK)
+with_kinds(["ktensor.innerprod", "ktensor.add"], [(k, None) for k in KRUSKAL_KINDS] + [(None, k) for k in KRUSKAL_KINDS])
+with_kinds(["ktensor.innerprod_dense"], [(k, None) for k in KRUSKAL_KINDS] + [(None, k) for k in DENSE_KINDS])
+with_kinds(["ttensor.permute"], [("C", None)])
+with_kinds(["ttensor.ttv", "ttensor.ttm", "ttensor.mttkrp"], [("C", None)], _MK)
+with_kinds(["ttensor.innerprod"], [("C", None), (None, "C")])
+with_kinds(["ttensor.innerprod_dense"], [("C", None)] + [(None, k) for k in DENSE_KINDS])
+with_kinds(["sumtensor.add", "sumtensor.innerprod"], [("C", None), ("sparse", None), ("empty", None), (None, "C"), (None, "zero")])
+with_kinds(["sumtensor.ttv", "sumtensor.mttkrp"], [("C", None), ("sparse", None), ("empty", None)], _MK)
+with_kinds(["tenmat.add", "tenmat.sub", "tenmat.radd", "tenmat.rsub"], [("C", None), (None, "C"), ("zero", "zero")])
+with_kinds(["cp_als", "cp_apr", "hosvd", "tucker_als", "gcp_opt", "cp_als.optdims"], [("C", None)])
+
+
+# ================================================================================================
 # known findings: trigger predicates (as narrow as the defect) and witnesses
 # ================================================================================================
 FINDINGS = []      # source of findings.d/C19.jsonl (written by `python3 tools/props/c19_ops.py --findings`)
@@ -1377,7 +1625,7 @@ FINDINGS = []      # source of findings.d/C19.jsonl (written by `python3 tools/p
 # if such a defect comes back the correspondence reports it
 FIXED = {"C19-N02": "b4434a4", "C19-N03": "d384651", "A-42": "f9fb7ec", "A-44": "3c0ad44", "A-45": "ce8a533",
          "C19-N04": "d862071", "C19-N05": "2c19f39", "C19-N06": "f9fb7ec", "C19-N07": "5b41ba6", "C19-N08": "aca2504",
-         "C19-N10": "d3df9c1", "C19-N12": "922ff4e", "C19-N13": "7d1fad0"}
+         "C19-N10": "d3df9c1", "C19-N12": "922ff4e", "C19-N13": "7d1fad0", "C19-N14": "f8cdd2b", "C19-N15": "03352d0"}
 
 
 def finding(fid, trigger, pred, op, witness, what, call_site, proposed="fix"):
@@ -1420,7 +1668,7 @@ finding("C19-N01", "permute_negative_axes",
         and _wrapped_distinct(len(a["s"]), a["order"]),
         "tensor.permute", {"s": [2, 3], "order": [-1, 0]},
         "tensor.permute: negative modes are passed to np.transpose, which wraps them around, so order [-1,0] is answered",
-        "tensor.permute", proposed="known")
+        "tensor.permute")
 finding("C19-N02", "dense_binop_broadcast",
         lambda op, a: op in DENSE_BINOPS and a["s"] != a["u"] and _bcast(a["s"], a["u"]),
         "tensor.add", {"s": [2, 3], "u": [1, 3]},
@@ -1454,7 +1702,9 @@ PROVED = {"tensor.ctor", "tensor.reshape", "tensor.innerprod", "tensor.permute",
           "ktensor.ctor", "ktensor.arrange", "ktensor.extract", "ktensor.innerprod", "ktensor.innerprod_dense", "ktensor.add",
           "ktensor.permute", "ttensor.ctor", "ttensor.innerprod", "ttensor.innerprod_dense", "ttensor.permute",
           "tenmat.mul", "tenmat.add", "sptenmat.ctor", "sumtensor.ctor", "sumtensor.add", "sumtensor.innerprod",
-          "khatrirao", "import_data",
+          "khatrirao", "import_data", "tenmat.sub", "tenmat.radd", "tenmat.rsub",
+          "cp_als.optdims", "tensor.to_tenmat", "sptensor.to_sptenmat", "tenmat.ctor", "tensor.nvecs", "tensor.ttt",
+          "tensor.getitem_linear", "tensor.setitem_linear", "tensor.scale", "ktensor.mttkrp", "sumtensor.mttkrp", "sptensor.ttm", "ttensor.ttm", "sptensor.mttkrp", "sptensor.extract", "sptensor.from_aggregator", "gcp_opt",
           "tensor.ttv", "tensor.ttm", "tensor.mttkrp", "tensor.collapse", "sptensor.ctor", "ktensor.redistribute",
           "cp_als", "hosvd", "cp_apr", "tucker_als", "sptensor.ttv", "ktensor.ttv", "ttensor.ttv", "sumtensor.ttv",
           "sptensor.collapse", "ttensor.mttkrp", "ktensor.normalize_mode"}
@@ -1496,7 +1746,7 @@ tagfinding("C19-N08", ["ktensor.mttkrp", "tensor.mttkrp", "sumtensor.mttkrp"], [
 tagfinding("C19-N09", ["ktensor.mttkrp", "sptensor.mttkrp"], ["cols", "cols_one"], "sptensor.mttkrp",
            {"s": [2, 2, 2], "us": [[2, 2], [2, 3], [2, 2]], "n": 2},
            "mttkrp: the column counts of the matrices in U are not compared (sptensor uses the first R columns, ktensor "
-           "broadcasts a single column)", "sptensor.mttkrp / ktensor.mttkrp", proposed="known")
+           "broadcasts a single column)", "sptensor.mttkrp / ktensor.mttkrp")
 tagfinding("C19-N10", ["ttensor.mttkrp"], ["list_short", "list_long"], "ttensor.mttkrp",
            {"s": [2, 2, 2], "us": [[2, 2], [2, 2], [2, 2], [2, 2]], "n": 2},
            "ttensor.mttkrp does not check the length of U (extra matrices ignored; a short list answers when n is the "
@@ -1525,6 +1775,28 @@ finding("C19-N15", "c19_n15_optdims",
         "cp_als.optdims", {"s": [2, 3, 4], "optdims": [0, 5]},
         "cp_als never validates optdims: out-of-range, negative or repeated modes are silently ignored as long as one listed "
         "mode exists (dimorder is validated, optdims is not)", "cp_als")
+
+
+finding("C19-N19", "c19_n19_gcp_list_init",
+        lambda op, a: op == "gcp_opt" and isinstance(a["init"], dict) and "l" in a["init"] and a.get("tag") in ("list_rank", "list_size")
+        and len({m[1] for m in a["init"]["l"]}) == 1 and _bcast([m[0] for m in a["init"]["l"]], a["s"]),
+        "gcp_opt", {"s": [3, 2], "rank": 2, "init": {"l": [[3, 3], [2, 3]]}, "opt": "lbfgsb"},
+        "gcp_opt: an initial guess given as a list of factor matrices is turned into a Kruskal tensor and used without comparing "
+        "it with the requested rank or the shape of the data (a Kruskal-tensor guess is compared): another number of components "
+        "is answered, a wrong size is answered whenever numpy can broadcast it against the data (singleton modes)",
+        "gcp_opt._get_initial_guess")
+tagfinding("C19-N18", ["sptensor.from_aggregator"], ["vals_no_subs"], "sptensor.from_aggregator", {"s": [2, 3], "subs": [], "nvals": 2},
+           "sptensor.from_aggregator compares the number of values with the number of subscripts only when subs.size > 1: "
+           "values handed over with a subscript array without rows are silently dropped (upstream tests "
+           "test_sptensor_initialization_from_aggregator and test_sptensor_ttv call it that way, so no repair is proposed)",
+           "sptensor.from_aggregator", proposed="known")
+tagfinding("C19-N16", ["sptensor.ctor"], ["vals_no_subs"], "sptensor.ctor", {"s": [2, 3], "subs": [], "nvals": 3},
+           "sptensor.__init__ compares nothing when the subscript array has no rows: values without subscripts are stored "
+           "(vals keeps 3 rows next to an empty subs: an ill-formed object whose nnz is 0)", "sptensor.__init__")
+tagfinding("C19-N17", ["sptensor.extract"], ["one_col", "extra_col", "missing_col"], "sptensor.extract", {"s": [2, 3], "subs": [[0], [1]]},
+           "sptensor.extract never compares the number of subscript columns with the number of modes: a single column (any "
+           "tensor) or any number of columns (1-way tensor) is broadcast against the shape and answered", "sptensor.extract",
+           extra=lambda a: len(a["subs"][0]) == 1 or len(a["s"]) == 1)
 
 
 if __name__ == "__main__":
